@@ -596,14 +596,17 @@ def _has_nonutf8(b):
 # ---------------------------------------------------------------------------------------------
 
 def sh(*cmd):
-    return subprocess.run(cmd, stdout=subprocess.PIPE, stderr=subprocess.PIPE, text=True,
+    # (interface names are bytes to the kernel: whatever is not UTF-8 travels as surrogate escapes, like os.fsdecode() does)
+    return subprocess.run(cmd, stdout=subprocess.PIPE, stderr=subprocess.PIPE, text=True, errors="surrogateescape",
                           env={k: v for k, v in os.environ.items() if k != "LD_PRELOAD"})
 
 
 def gen_if_config(rng, idx):
     ifs = []
     for i in range(rng.randrange(1, 4)):
-        name = rng.choice(["v%d" % i, "veth-%d-%d" % (idx % 10, i), "x" * 14 + str(i), "a.b:%d" % i, "e%d" % i])[:15]
+        name = rng.choice(["v%d" % i, "veth-%d-%d" % (idx % 10, i), "x" * 14 + str(i), "a.b:%d" % i, "e%d" % i,
+                           # dev_valid_name() refuses '/', ':' and white space only: any other byte may be part of a name
+                           "caf\udce9%d" % i, "\udcff\udcfe-%d" % i, "n\u00e9t%d" % i])[:15]
         peer = ("p%s" % name)[:15]
         addrs = []
         for _ in range(rng.randrange(0, 4)):
@@ -667,7 +670,8 @@ def run_netns_case(case, acc):
             addrs = ps.net_if_addrs()
             stats = ps.net_if_stats()
         except Exception as e:  # noqa: BLE001
-            acc.case(case, True, [(f"net_if_exception:{type(e).__name__}", f"{e!r} with interfaces {[r.get('ifname') for r in ref]}")])
+            mech = f"net_if_exception:{type(e).__name__}" + (":non_ascii_interface_name" if any(not i["name"].isascii() for i in made) else "")
+            acc.case(case, True, [(mech, f"{e!r} with interfaces {[r.get('ifname') for r in ref]}")])
             harness.mark_current(None)
             return
         refd = {r["ifname"]: r for r in ref}
@@ -724,6 +728,9 @@ def run_netns_case(case, acc):
     finally:
         for it in made:
             sh("ip", "link", "del", it["name"])
+    if any(not i["name"].isascii() for i in made):
+        acc.count("netns_cases_with_non_ascii_interface_names")
+        viols = [(m + ":non_ascii_interface_name" if m.startswith("net_if") else m, d) for m, d in viols]
     acc.case(case, any(len(i["name"]) >= 14 or i["addrs"] for i in case["ifs"]), viols)
     harness.mark_current(None)
 
